@@ -18,4 +18,14 @@ def project (A fm : FM) : Except FErr FM :=
   | .error e => .error e
   | .ok I => getitem I fm
 
+/-- `lookup`: position `j` of a cover (out of range / lost = none) -/
+def coverAt (c : List (Option Int)) (j : Int) : Option Int := if j < 0 then none else (c[j.toNat]?).join
+
+/-- reading the gapped row `A` at a projected position: the sequence position shown in that alignment
+column (`none` for a lost position or a gap column).  Degapping the own-row slice of an alignment
+feature reads the row at the feature's columns and drops the gaps. -/
+def readRow (A : FM) : Option Int → Option Int
+  | none => none
+  | some k => coverAt (cover A) k
+
 end CogentModel.FMap
